@@ -183,6 +183,8 @@ structure Agree (wc : Ctx) (sc : QV.Spec.Sem.Ctx) (ic : ICtx) : Prop where
   float : sc.H.F = wc.F
   objects : ∀ name cls, wc.objects.find? (·.1 = name) = some (name, cls) →
     ∃ o, sc.objects.find? (·.1 = name) = some (name, o, cls) ∧ ic.named name = some o
+  props : ∀ cls p, sc.propTy cls p =
+    ((wc.env.findClass cls).bind fun ci => ci.props.find? (·.name = p)).map fun pi => styOf pi.ty
 
 /-- the straight-line expression fragment -/
 inductive Straight (wc : Ctx) : Expr → Prop
